@@ -220,4 +220,6 @@ def run(repo, tier):
         (BW + 'biweight_location', 'ret', 'M ||| M.squeeze(axis=axis) ||| value ||| where_func(mad.squeeze(axis=axis) == 0, M.squeeze(axis=axis), value) ||| M.squeeze(axis=axis) + sum_func(d * u, axis=axis) / sum_func(u, axis=axis)',
          'the median where MAD == 0, the biweight location elsewhere'),
     ])
+    from .common import run_clone_pairs
+    run_clone_pairs(repo, res, {m for m in repo.modules if m.startswith('photutils.background') and '.tests' not in m})
     return res
